@@ -440,10 +440,12 @@ def t3_shared_cache(ctx):
             state["eng"].work(durations[int(disc.name[1:])])
 
     sizes = {"a": 2, "y": 2}
-    discs = [HDisc(f"D{i}", ["a"], ["y"], sizes, salt=0, hook=hook) for i in range(n)]
+    # (salt 1: the Jacobian depends on the input, so a Jacobian stored in the entry of another input is visible)
+    discs = [HDisc(f"D{i}", ["a"], ["y"], sizes, salt=1, hook=hook) for i in range(n)]
     for d in discs:
         d.add_differentiated_inputs()
         d.add_differentiated_outputs()
+    linearized = set()
     cfg = {"workload": "T3-shared-cache/thread", "n_clones": n, "n_workers": n_workers, "shared_memory": bool(shared_mem),
            "preempt": preempt, "rounds": rounds, "durations": durations}
     sig = cfg["workload"]
@@ -469,6 +471,7 @@ def t3_shared_cache(ctx):
             except Deadlock as d:
                 ctx.violate("C13.liveness", sig + " deadlock", str(d))
             if lin:
+                linearized.update(xs)
                 ctx.event("round", r, "lin", tuple(xs), canon([None if o is None else _dense(o["y"]["a"]) for o in outs]))
                 for x, inp, o in zip(xs, inputs, outs):
                     exp = discs[0].df(inp)["y"]["a"]
@@ -492,6 +495,8 @@ def t3_shared_cache(ctx):
             ctx.violate("C13.shared_cache_wellformed", sig, f"cache entry without inputs: {e}; cfg={cfg} rounds={kinds}")
         xa = array(e.inputs["a"])
         seen.append(float(xa[0]))
+        if float(xa[0]) in linearized and not e.jacobian:
+            ctx.violate("C13.shared_cache_wellformed", sig + " jacobian missing", f"the input a={xa} was linearised but its cache entry holds no Jacobian (a sequential run stores it); cfg={cfg} rounds={kinds}")
         exp = discs[0].f({"a": xa})["y"]
         if not e.outputs or "y" not in e.outputs or not _eq_data(e.outputs["y"], exp):
             ctx.violate("C13.shared_cache_wellformed", sig, f"cache entry for a={xa} holds outputs {e.outputs}, expected y={exp}; cfg={cfg} rounds={kinds}")
